@@ -1,3 +1,5 @@
+from string import ascii_letters
+from string import digits
 from typing import Any
 from typing import List
 from typing import Optional
@@ -10,6 +12,9 @@ from pytezos.michelson.micheline import Micheline
 from pytezos.michelson.micheline import MichelineLiteral
 from pytezos.michelson.micheline import MichelsonRuntimeError
 from pytezos.michelson.types.base import MichelsonType
+
+# NOTE: same charset as for entrypoint names (Script_ir_annot.is_allowed_char)
+VIEW_NAME_CHARS = frozenset(ascii_letters + digits + '_.%@')
 
 
 class ViewSection(Micheline, prim='view', args_len=4):
@@ -60,8 +65,9 @@ class ViewSection(Micheline, prim='view', args_len=4):
             raise MichelsonRuntimeError('view', 'Expected view name as first argument', view_name)
         name = view_name.get_string()
         if len(name) >= 32:
-            # TODO: also check for denied symbols
             raise MichelsonRuntimeError('view', f'Too long view name {view_name}')
+        if not VIEW_NAME_CHARS.issuperset(name):
+            raise MichelsonRuntimeError('view', f'Forbidden characters in view name {name!r}')
 
         # NOTE: Check for opcodes forbidden in views
         cls.check_code(args[3], lambda_=False)
